@@ -399,4 +399,135 @@ theorem update_refines_set_labels_rows (g : Graph) (hg : g.nodes.Pairwise fun a 
     simp only [Spec.applyClause, Spec.forRows]
     simpa using h2
 
+/-! ### CREATE (x:Ls) — a single fresh node per row -/
+
+/-- the induction for clauses that change the rows (CREATE binds its variables): the reference side is any
+    `forRows` body -/
+theorem rows_simulation_out (fm : Update.St → Update.URow → Except Err (Update.St × Update.URow))
+    (fs : Spec.St → Row → Except Err (Spec.St × Table)) (R : Update.St → Spec.St → Prop) (T : List Update.URow)
+    (hstep : ∀ u ∈ T, ∀ m sp, R m sp →
+      ∃ m' u' sp' rs, fm m u = .ok (m', u') ∧ fs sp u.row = .ok (sp', rs) ∧ R m' sp') :
+    ∀ (m : Update.St) (sp : Spec.St) (out : List Update.URow) (outS : Table), R m sp →
+      ∃ m' T' sp' outS',
+        T.foldlM (fun (a : Update.St × List Update.URow) u => do
+          let x ← fm a.1 u
+          pure (x.1, a.2 ++ [x.2])) (m, out) = .ok (m', T') ∧
+        (T.map (·.row)).foldlM (fun (acc : Spec.St × Table) r => do
+          let (s, rs) ← fs acc.1 r
+          pure (s, acc.2 ++ rs)) (sp, outS) = .ok (sp', outS') ∧
+        R m' sp' := by
+  induction T with
+  | nil => intro m sp out outS hR; exact ⟨m, out, sp, outS, rfl, rfl, hR⟩
+  | cons u us ih =>
+    intro m sp out outS hR
+    obtain ⟨m1, u1, sp1, rs, h1, h2, hR1⟩ := hstep u (by simp) m sp hR
+    obtain ⟨m', T', sp', outS', h3, h4, hR'⟩ :=
+      ih (fun v hv => hstep v (List.mem_cons_of_mem _ hv)) m1 sp1 (out ++ [u1]) (outS ++ rs) hR1
+    refine ⟨m', T', sp', outS', ?_, ?_, hR'⟩
+    · simp only [List.foldlM_cons, h1, bind, Except.bind, pure, Except.pure]
+      exact h3
+    · simp only [List.map_cons, List.foldlM_cons, h2, bind, Except.bind, pure, Except.pure]
+      exact h4
+
+theorem foldl_max_eq (l : List NodeRec) (nxt : Nat) (h : ∀ nd ∈ l, nd.id < nxt) :
+    l.foldl (fun m n => max m (n.id + 1)) nxt = nxt := by
+  induction l with
+  | nil => rfl
+  | cons nd rest ih =>
+    simp only [List.foldl_cons]
+    have h1 : nd.id < nxt := h nd (by simp)
+    have : max nxt (nd.id + 1) = nxt := by omega
+    rw [this]
+    exact ih (fun x hx => h x (List.mem_cons_of_mem _ hx))
+
+theorem freshId_eq (G : Graph) (nxt : Nat) (h : ∀ nd ∈ G.nodes, nd.id < nxt) : Spec.freshId G nxt = nxt :=
+  foldl_max_eq G.nodes nxt h
+
+/-- one row of `CREATE (x:ls)` (or an anonymous node) on a row that does not bind `x` -/
+theorem create_node_row (g : Graph) (next : Nat) (m : Update.St) (sp : Spec.St) (hR : USim g next m sp)
+    (hfresh : ∀ nd ∈ sp.g.nodes, nd.id < sp.next)
+    (r : Row) (var : Option String) (ls : List String) (hx : ∀ x, var = some x → r.get x = none) :
+    ∃ m' u' sp' r', Update.createRow A params g next ⟨⟨var, ls, []⟩, []⟩ m ⟨r, []⟩ = .ok (m', u') ∧
+      Spec.createPath A params g sp r ⟨⟨var, ls, []⟩, []⟩ = .ok (sp', r') ∧ USim g next m' sp' ∧
+      (∀ nd ∈ sp'.g.nodes, nd.id < sp'.next) ∧
+      m'.ops = m.ops ++ [.createNode (next + m.created) ls] := by
+  have hid : Spec.freshId sp.g sp.next = next + m.created := by rw [freshId_eq sp.g sp.next hfresh, hR.next]
+  have hsim : USim g next
+      { m with ops := m.ops ++ [.createNode (next + m.created) ls], created := m.created + 1, count := m.count + 1 }
+      { sp with g := { sp.g with nodes := sp.g.nodes ++ [⟨next + m.created, ls.eraseDups, []⟩] },
+                next := next + m.created + 1,
+                c := { sp.c with nodesCreated := sp.c.nodesCreated + 1 } } := by
+    refine ⟨?_, by simp [Nat.add_assoc], ?_, ?_⟩
+    · simp only [applyOps_snoc, ← hR.graph, Update.applyOp]
+    · have := hR.count
+      simp only [Counts.total] at this ⊢
+      omega
+    · simp only [List.pairwise_append, hR.distinct, List.pairwise_cons, List.Pairwise.nil, true_and,
+        List.mem_singleton, forall_eq]
+      refine ⟨by simp, ?_⟩
+      intro a ha
+      have := hfresh a ha
+      rw [hR.next] at this
+      omega
+  have hfresh' : ∀ nd ∈ sp.g.nodes ++ [(⟨next + m.created, ls.eraseDups, []⟩ : NodeRec)], nd.id < next + m.created + 1 := by
+    intro nd hnd
+    rcases List.mem_append.mp hnd with h | h
+    · have := hfresh nd h; rw [hR.next] at this; omega
+    · simp only [List.mem_singleton] at h; subst h; simp
+  cases var with
+  | none =>
+    refine ⟨_, ⟨r, []⟩, _, r, ?_, ?_, hsim, hfresh', rfl⟩
+    · simp only [Update.createRow, List.map_nil, List.forIn_cons, List.forIn_nil, Option.bind, bind, Except.bind,
+        pure, Except.pure, List.nil_append]
+    · simp only [Spec.createPath, Spec.nodeFor, Option.bind, Spec.createNode, Spec.createMap, List.foldlM_nil, hid,
+        Spec.createSteps, bind, Except.bind, pure, Except.pure]
+  | some x =>
+    have hx' := hx x rfl
+    have hmodel : ∃ u', Update.createRow A params g next ⟨⟨some x, ls, []⟩, []⟩ m ⟨r, []⟩ = .ok
+        ({ m with ops := m.ops ++ [.createNode (next + m.created) ls], created := m.created + 1,
+                  count := m.count + 1 }, u') := by
+      simp only [Update.createRow, List.map_nil, List.forIn_cons, List.forIn_nil, Option.bind, Update.rowNode, hx',
+        bind, Except.bind, pure, Except.pure, List.nil_append]
+      exact ⟨_, rfl⟩
+    obtain ⟨u', hu'⟩ := hmodel
+    refine ⟨_, u', _, r.set x (.node (next + m.created)), hu', ?_, hsim, hfresh', rfl⟩
+    · simp only [Spec.createPath, Spec.nodeFor, Option.bind, hx', Spec.createNode, Spec.createMap, List.foldlM_nil,
+        hid, Spec.createSteps, bind, Except.bind, pure, Except.pure]
+
+/-- **update_refines (CREATE (x:ls), all rows)** — one `create_node` call per row with consecutive fresh ids
+    (`next`, `next+1`, …), count = number of rows; the committed graph is the reference's.  `next` is above every
+    node id of the snapshot (ids are never re-used), `x` is not bound by the rows. -/
+theorem update_refines_create_node_rows (g : Graph) (hg : g.nodes.Pairwise fun a b => a.id ≠ b.id) (next : Nat)
+    (hnext : ∀ nd ∈ g.nodes, nd.id < next) (names : List String) (w : Update.WPlan)
+    (var : Option String) (ls : List String) (T : Table) (hT : ∀ r ∈ T, ∀ x, var = some x → r.get x = none) :
+    ∃ m T' sp outS, Update.runStage A params g next names w {} (T.map fun r => { row := r })
+        (.create ⟨⟨var, ls, []⟩, []⟩ false) = .ok (m, T') ∧
+      Spec.applyClause A params { g, next } T (.create [⟨⟨var, ls, []⟩, []⟩]) = .ok (sp, outS) ∧
+      USim g next m sp := by
+  have hmapRow : (T.map fun r => ({ row := r } : Update.URow)).map (·.row) = T := by
+    simp [List.map_map, Function.comp_def]
+  obtain ⟨m, T', sp, outS, h1, h2, hR⟩ := rows_simulation_out
+    (fun m u => Update.createRow A params g next ⟨⟨var, ls, []⟩, []⟩ m u)
+    (fun sp r => do
+      let (s, r) ← [(⟨⟨var, ls, []⟩, []⟩ : PathPat)].foldlM
+        (fun (acc : Spec.St × Row) p => Spec.createPath A params g acc.1 acc.2 p) (sp, r)
+      pure (s, [r]))
+    (fun m sp => USim g next m sp ∧ (∀ nd ∈ sp.g.nodes, nd.id < sp.next))
+    (T.map fun r => { row := r })
+    (by
+      intro u hu m sp hR
+      obtain ⟨r, hr, rfl⟩ := List.mem_map.mp hu
+      obtain ⟨m', u', sp', r', a1, a2, a3, a4, _⟩ :=
+        create_node_row A params g next m sp hR.1 hR.2 r var ls (hT r hr)
+      refine ⟨m', u', sp', [r'], a1, ?_, a3, a4⟩
+      simp only [List.foldlM_cons, List.foldlM_nil, a2, bind, Except.bind, pure, Except.pure])
+    {} { g, next } [] [] ⟨USim.init g hg next, hnext⟩
+  refine ⟨m, T', sp, outS, ?_, ?_, hR.1⟩
+  · simp only [Update.runStage]
+    rw [forIn_stage_eq_foldlM (fun m u => Update.createRow A params g next ⟨⟨var, ls, []⟩, []⟩ m u), h1]
+    rfl
+  · rw [hmapRow] at h2
+    simp only [Spec.applyClause, Spec.forRows]
+    exact h2
+
 end Nervus.Cy
